@@ -679,11 +679,11 @@ pub fn check(tier: &str, std_bin: &str) -> i32 {
             for line in text.lines() {
                 if let Ok(v) = serde_json::from_str::<Value>(line) {
                     if let Some(sv) = v.get("sweep_violation") {
-                        out.violation("always_terminates", json!({"mode": "config", "w": sv["w"], "days": sv["days"], "threshold": sv["threshold"]}), sv.clone());
+                        out.violation("always_terminates", json!({"mode": "config", "scenario": sv["scenario"], "w": sv["w"], "days": sv["days"], "threshold": sv["threshold"]}), sv.clone());
                     }
                     if let Some(s) = v.get("sweep") {
                         for b in s["violations"].as_array().cloned().unwrap_or_default() {
-                            out.violation("parallel_equals_sequential", json!({"mode": "config", "w": b["w"], "days": b["days"], "threshold": b["threshold"]}), b.clone());
+                            out.violation("parallel_equals_sequential", json!({"mode": "config", "scenario": b["scenario"], "w": b["w"], "days": b["days"], "threshold": b["threshold"]}), b.clone());
                         }
                         sweep_json = s.clone();
                     }
@@ -913,7 +913,7 @@ pub fn replay(path: &str, std_bin: &str) -> i32 {
             }
         }
         "config" => {
-            let st = std::process::Command::new(std_bin).args(["config", &case["w"].to_string(), &case["days"].to_string(), &case["threshold"].to_string()]).status().expect("run std binary");
+            let st = std::process::Command::new(std_bin).args(["config", &case["w"].to_string(), &case["days"].to_string(), &case["threshold"].to_string(), &case["scenario"].as_u64().unwrap_or(0).to_string()]).status().expect("run std binary");
             st.code().unwrap_or(2)
         }
         _ => {
